@@ -9,7 +9,7 @@ RULE = ('split(predicate, inner) with predicates whose values are equal but not 
         'ints, floats vs ints vs bools, run-time strings), runs of length 1, a single run, empty keys; 1-3 interleaved outer '
         'keys with reused slots; also under group_by and nested in roll/split (model comparison). The inner pipeline is '
         'tapped at its head. Oracle: segments = maximal runs of == predicate value, contiguous, in order, last one closed at '
-        'key completion, none for an empty key. non-trivial = >= 2 runs in some key; distinct = distinct JSON')
+        'key completion, none for an empty key; also with mux errors travelling through split (dropped at the inner head and after split): they neither open nor close a segment. non-trivial = >= 2 runs in some key; distinct = distinct JSON')
 ASSUMPTIONS = ['predicate is total']
 PREDS = [['floordiv', 2], ['floordiv', 3], ['isodd'], ['mod', 2], ['id'], ['const', enc(1)],
          ['pair', ['floordiv', 3], ['const', enc('p')]],
@@ -31,8 +31,30 @@ def generate(rng, tier):
         ast = {'group': [['group', ['mod', 2], core]], 'roll': [['roll', rng.randint(2, 5), rng.randint(1, 3), core]],
                'split': [['split', ['floordiv', 6], core]]}.get(ctx, core)
         trace = muxgen.gen_trace(rng, muxgen.INT, nkeys=rng.choice([1, 2, 3]), sorted_=rng.random() < 0.5)
+        if ctx == 'top' and rng.random() < 0.3:
+            # mux errors travelling THROUGH split (dropped at the head of the inner pipeline and after split):
+            # an error is not an item, it neither opens nor closes a segment
+            ctx = 'errthru'
+            ast = [['split', pred, [['tap', 1], ['ignore'], ['to_list']]], ['ignore']]
+            trace = with_errors(rng, trace)
         cases.append({'ast': ast, 'trace': trace, 'pred': pred, 'ctx': ctx})
     return cases
+
+
+def with_errors(rng, trace):
+    out, live = [], set()
+    for e in trace:
+        k = tuple(e[1])
+        if e[0] == 'd' and rng.random() < 0.3:
+            out.append(['e', list(k), rng.choice([1, 2, 3])])
+        out.append(e)
+        if e[0] == 'c':
+            live.add(k)
+        elif e[0] == 'd':
+            live.discard(k)
+        if k in live and rng.random() < 0.3:
+            out.append(['e', list(k), rng.choice([1, 2, 3])])
+    return out
 
 
 def run_impl(case):
@@ -69,7 +91,7 @@ def segments_by_parent(log):
 
 
 def oracle(case, obs):
-    if 'raised' in obs or muxprop.has_fatal(obs['steps']) or case['ctx'] != 'top':
+    if 'raised' in obs or muxprop.has_fatal(obs['steps']) or case['ctx'] not in ('top', 'errthru'):
         return None
     pred = py_fn(case['pred'])
     got = segments_by_parent(obs['taps'].get('1', []))
